@@ -233,6 +233,15 @@ def build(ctx):
     return hbin
 
 
+def private_copy(hbin, scratch):
+    """vlib.build_cpp deletes older binaries of the same harness when the tree hash changes (another check
+    running against a VERIF_REPO copy, or /repo being edited): run from a private copy"""
+    import shutil
+    local = os.path.join(scratch, 'pbf-harness')
+    shutil.copy2(hbin, local)
+    return local
+
+
 def scratch_dir(tag):
     d = os.path.join(vlib.BUILD, '%s-%d' % (tag, os.getpid()))
     os.makedirs(d, exist_ok=True)
@@ -299,6 +308,7 @@ def run_part(ctx):
         return
     scratch = scratch_dir('c01pbf')
     try:
+        hbin = private_copy(hbin, scratch)
         _run(ctx, rng, quick, hbin, scratch)
     finally:
         cleanup(scratch)
